@@ -176,6 +176,10 @@ def check_reward(ctx, ad, episodes_quick: int = 150, episodes_thorough: int = 30
                  {"insts": insts, "actions": ep.actions, "error": str(e)[:200], "cause": cause})
             ctx.count(f"{ad.name}.reward-raised")
             continue
+        mb = ad.batched_reward_model(ctx, insts, ep.actions)
+        if mb is not None and mb != real:
+            ctx.disagreement(f"{ad.name}: batched reward differs from the model of the batched reward loop",
+                             {"insts": insts, "actions": ep.actions, "real": real, "model": mb})
         lines = [ad.line("episode", insts[r], ep.actions[r]) for r in range(B)]
         replies = ask(ctx, lines)
         for r in range(B):
@@ -219,6 +223,11 @@ def check_batch_independence(ctx, ad, groups_quick: int = 30, groups_thorough: i
         except (RuntimeError, IndexError) as e:
             rew_b = None
             ctx.count(f"{ad.name}.batched-reward-raised")
+        if rew_b is not None:
+            mb = ad.batched_reward_model(ctx, insts, ep.actions)
+            if mb is not None and mb != rew_b:
+                ctx.disagreement(f"{ad.name}: batched reward differs from the model of the batched reward loop",
+                                 {"insts": insts, "actions": ep.actions, "real": rew_b, "model": mb})
         lines = [ad.line("episode", insts[r], ep.actions[r]) for r in range(B)]
         replies = ask(ctx, lines)
         for r in range(B):
